@@ -156,3 +156,7 @@ impl Direction {
         self != other
     }
 }
+
+#[cfg(feature = "pendulum_project_ntpd_rs_verif")]
+#[path = "/verif/hooks/statime-base/identifiers.rs"]
+pub mod vh_identifiers;
